@@ -269,3 +269,16 @@ pub fn respell(text: &str, seed: u32) -> String {
 	lead + &out
 }
 
+/// the last tile of level z on the Hilbert curve and the first tiles of level z+1 with equal
+/// payloads (one PMTiles run over the level border, when the encoder merges runs)
+pub fn border_run(spec: &mut SetSpec, r: u32, w: u32, h: u32) {
+	let z = 1 + (r % 11) as u8;
+	let size = 1u32 << z;
+	spec.levels = vec![
+		LevelSpec { z, x0: size - w.min(size).min(3), y0: 0, w: w.min(size).min(3), h: h.min(size).min(2), shape: Shape::Dense, seed: r },
+		LevelSpec { z: z + 1, x0: 0, y0: 0, w: 1, h: 1 + (r >> 8) % 2, shape: Shape::Dense, seed: r },
+		LevelSpec { z: z + 1, x0: 2 + (r >> 12) % size, y0: 2 + (r >> 20) % size, w: 1 + (r >> 4) % 3, h: 1, shape: Shape::Dense, seed: r },
+	];
+	spec.pay = Pay::Dups { variants: 1 + ((r >> 6) % 2) as u8, len: 20 + (r >> 16) % 100 };
+}
+
